@@ -172,6 +172,70 @@ def _baseline_job(seed):
         return {"infra": repr(e)[:500], "seed": seed}
 
 
+def queued_fd_case(first_len=3000, nmsgs=2):
+    """several descriptor-carrying messages are in the sender's socket before the bus has read the first of them completely (the daemon is
+    held while they are written): each arrives with its own descriptor - the same open file -, in order, and the sender stays connected"""
+    import signal as _sig, tempfile
+    from .. import bus
+    from ..bus import method_call, signal_msg, BUS, BUS_PATH
+    d = bus.Daemon()
+    files = []
+    try:
+        R = bus.Client(d, fd_passing=True); bus.hello(R)
+        S = bus.Client(d, fd_passing=True); bus.hello(S)
+        if not (R.fd_ok and S.fd_ok):
+            raise InfraError("descriptor passing was not negotiated")
+        msgs = []
+        for k in range(nmsgs):
+            f = tempfile.NamedTemporaryFile(prefix="c15q-", dir=d.dir); files.append(f)
+            m = signal_msg(10 + k, "/c15", "c.q", "M%d" % k, "sh", [b"x" * (first_len if k == 0 else 10), 0], dest=R.unique, extra_fields=[(9, ('b', 'u'), 1)])
+            msgs.append((m.marshal(), f))
+        os.kill(d.proc.pid, _sig.SIGSTOP)
+        try:
+            for data, f in msgs:
+                S.send_raw(data, [f.fileno()])
+        finally:
+            os.kill(d.proc.pid, _sig.SIGCONT)
+        r, _ = bus.bus_call(S, "GetId", timeout=10.0)
+        sender_ok = r is not None and r.mtype == 2
+        R.send(method_call(900, None, "/", "org.freedesktop.DBus.Peer", "Ping"))
+        got = R.recv_until(lambda m: m.mtype in (2, 3) and m.get(5) == 900, 10.0) or []
+        seen = [m.get(3).decode() for m in got if m is not None and m.mtype == 4 and m.get(2) == b"c.q"]
+        inos = []
+        for fd in R.fds:
+            st = os.fstat(fd); inos.append((st.st_dev, st.st_ino)); os.close(fd)
+        R.fds = []
+        want_inos = [(os.fstat(f.fileno()).st_dev, os.fstat(f.fileno()).st_ino) for _, f in msgs]
+        return {"first_len": first_len, "messages": nmsgs, "seen": seen, "want": ["M%d" % k for k in range(nmsgs)], "descriptors_ok": inos == want_inos,
+                "descriptors_got": len(inos), "sender_still_connected": sender_ok, "alive": d.alive()}
+    finally:
+        for f in files:
+            f.close()
+        d.stop()
+
+
+def run_queued(ctx):
+    res = []
+    for first_len, n in ((3000, 2), (100, 3), (9000, 3)):
+        try:
+            res.append(queued_fd_case(first_len, n))
+        except (OSError, InfraError) as e:
+            res.append({"infra": repr(e)})
+    good = [r for r in res if "infra" not in r]
+    if len(good) < 2:
+        raise InfraError("queued-descriptor scenarios failed: %s" % res)
+    ok = True
+    for r in good:
+        if r["seen"] != r["want"] or not r["descriptors_ok"] or not r["sender_still_connected"] or not r["alive"]:
+            ok = False
+            ctx.violate("descriptor-carrying messages written back to back (the first %d bytes long): delivered %s of %s, descriptors intact: %s (%d arrived), "
+                        "sender still connected: %s" % (r["first_len"], r["seen"], r["want"], r["descriptors_ok"], r["descriptors_got"], r["sender_still_connected"]),
+                        {"kind": "queued-fds", "case": [r["first_len"], r["messages"]], "observed": r}, True)
+    ctx.oblige("scenario: descriptor-carrying messages queued behind one another in the sender's socket arrive each with its own descriptor, in order (%d cases)" %
+               len(good), "correspondence", ok)
+    ctx.coverage.setdefault("distribution", {})["queued_descriptor_messages"] = res
+
+
 def run(ctx):
     check.lean_obligations(ctx, MODULE, THEOREMS)
     nh = 10 if ctx.quick() else 80
@@ -186,6 +250,7 @@ def run(ctx):
     buscheck.run_histories(ctx, 0, 0, oracle, limits={"pending_fd_timeout": 500}, seed_salt=170, label="pending-descriptor-timeout", scripts=timer_scripts())
     buscheck.run_histories(ctx, 0, 0, oracle, seed_salt=171, label="big-header-scenarios", scripts=bigheader_scripts())
     buscheck.run_histories(ctx, 0, 0, oracle, seed_salt=172, label="surplus-descriptor-scenarios", scripts=surplus_scripts())
+    run_queued(ctx)
     from concurrent.futures import ProcessPoolExecutor
     n = 6 if ctx.quick() else 40
     with ProcessPoolExecutor(6) as ex:
@@ -218,6 +283,10 @@ def replay(path):
     rp = data["replay"]
     if rp.get("kind") == "bus-history":
         rc = buscheck.replay_history(path, oracle, "C15")
+    elif rp.get("kind") == "queued-fds":
+        r = queued_fd_case(*rp["case"])
+        print("replay C15: %s" % r)
+        rc = 0 if (r["seen"] == r["want"] and r["descriptors_ok"] and r["sender_still_connected"] and r["alive"]) else 1
     else:
         print("replay: %s" % data.get("what")); rc = 1
     if rc:
